@@ -145,6 +145,11 @@ type CR3Parts struct {
 	// a child of moov, and its last child is an 8..15-byte free box: too short for the 16 bytes a
 	// child header is peeked with.
 	CanonTop bool
+	// PrvwSizeDelta: the JPEG-size field inside the PRVW payload says this much more (or less)
+	// than the box holds; the box sizes stay well formed. PrvwTail: a free box follows PRVW inside
+	// the preview uuid box.
+	PrvwSizeDelta int
+	PrvwTail      bool
 }
 
 // CR3 is a generated file and its ground truth.
@@ -288,11 +293,15 @@ func BuildCR3(r *core.Rng, p CR3Parts, noise int, large64 bool) CR3 {
 		binary.BigEndian.PutUint16(pr[6:], p.PrvwW)
 		binary.BigEndian.PutUint16(pr[8:], p.PrvwH)
 		binary.BigEndian.PutUint16(pr[10:], 1)
-		binary.BigEndian.PutUint32(pr[12:], uint32(len(p.Preview)))
+		binary.BigEndian.PutUint32(pr[12:], uint32(len(p.Preview)+p.PrvwSizeDelta))
 		prvw := &Box{Type: "PRVW", Payload: append(pr, p.Preview...), Tag: "PRVW"}
 		named["PRVW"] = prvw
 		// preview uuid: 8 bytes (version/flags + count) precede the PRVW box
-		pv := &Box{Type: "uuid", UUID: UUIDPreview, Pre: []byte{0, 0, 0, 0, 0, 0, 0, 1}, Kids: []*Box{prvw}, Large: lg(), Tag: "uuid-preview"}
+		pvKids := []*Box{prvw}
+		if p.PrvwTail {
+			pvKids = append(pvKids, &Box{Type: "free", Payload: bytesOf(0xEE, r.Range(8, 200)), Tag: "prvw-tail"})
+		}
+		pv := &Box{Type: "uuid", UUID: UUIDPreview, Pre: []byte{0, 0, 0, 0, 0, 0, 0, 1}, Kids: pvKids, Large: lg(), Tag: "uuid-preview"}
 		named["uuid-preview"] = pv
 		top = append(top, pv)
 	}
@@ -415,4 +424,12 @@ func BuildHEIF(r *core.Rng, tiff []byte, brandChoice int) []byte {
 	ScrubTIFFSig(out, 0, tiffOff)
 	ScrubTIFFSig(out, tiffOff+len(tiff), len(out))
 	return out
+}
+
+func bytesOf(v byte, n int) []byte {
+	b := make([]byte, n)
+	for i := range b {
+		b[i] = v
+	}
+	return b
 }
